@@ -226,7 +226,7 @@ def history(h):
                         for t in n.targets:
                             if isinstance(t, ast.Subscript) and isinstance(t.value, ast.Name) and t.value.id == p:
                                 muts.append(f"del {p}[...]@{n.lineno}")
-                h.ensures(f"mutable_default_not_mutated[{'.'.join(q.split('.')[-2:])}({p})]", not muts, why=str(muts))
+                h.ensures(f"mutable_default_not_mutated[{'.'.join(q.split('.')[-2:])}({p})]", not muts, why=str(muts), replay=lambda ev: {"target": "verif_replays:mutable_defaults_replay", "args": [], "check": "result['exc'] is None and result['ok']"})
     # (2) the client's fields: in get_estimates every field is written before it is read
     loads, stores = {}, {}
     for n in ast.walk(fs.node):
